@@ -15,7 +15,10 @@
 (*    cs_n rising), gap (minimum cs_n high time between transfers), lens,   *)
 (*    words (dw-bit words; a transfer of length L sends the top L bits,     *)
 (*    MSB first, zeros after the word if L > dw), txws (words the SoC side   *)
-(*    sends)                                                                *)
+(*    sends), other (optional flag, 1: the bus is shared - while this slave  *)
+(*    is deselected the master may run the same transfers with ANOTHER      *)
+(*    slave: clk and mosi move, cs_n of this slave stays high; codes above  *)
+(*    the own ones)                                                         *)
 (*                                                                          *)
 (* The master (environment): cs_n low at p = 0, rising edge k at            *)
 (* p = R(k) = h + 2h(k-1), falling edge k at R(k) + h, cs_n high again at   *)
@@ -30,18 +33,21 @@ SeqSet(q) == { q[i] : i \in 1..Len(q) }
 LAT == 4             \* start / irq at most LAT cycles after the cs_n edge (2-stage synchroniser + FSM)
 
 NL(c) == Len(c.lens)
-Codes(c) == 1..(NL(c) * Len(c.words))
-DecLen(c, g)  == c.lens[((g - 1) % NL(c)) + 1]
-DecWord(c, g) == c.words[((g - 1) \div NL(c)) + 1]
+NC(c) == NL(c) * Len(c.words)
+Codes(c) == 1..NC(c)
+Own(c, g) == g <= NC(c)                               \* codes NC+1..2NC: the same transfers with another slave
+DecLen(c, g)  == c.lens[(((g - 1) % NC(c)) % NL(c)) + 1]
+DecWord(c, g) == c.words[(((g - 1) % NC(c)) \div NL(c)) + 1]
 
 R(c, k) == c.h + 2 * c.h * (k - 1)
 EndP(c, L) == c.h + 2 * c.h * L
 
-(* m.t: <<>> or the transfer on the pins [L, X, tx, p, started]                               *)
+(* m.t: <<>> or the transfer on the pins [L, X, tx, p, started, own]  (own = FALSE: the master *)
+(*      talks to another slave)                                                                *)
 (* m.post: <<>> or [L, X, q] after cs_n rose (q cycles ago): the end-of-transfer report owed   *)
 (* m.idle: cycles cs_n has been high (capped);  m.busy: between the start and irq pulses;     *)
-(* m.pmo: miso pin of the previous cycle                                                      *)
-Init0 == [t |-> <<>>, post |-> <<>>, idle |-> 0, busy |-> FALSE, pmo |-> 0]
+(* m.pmo: miso pin of the previous cycle;  m.prx, m.pln: received word / length of the previous cycle *)
+Init0 == [t |-> <<>>, post |-> <<>>, idle |-> 0, busy |-> FALSE, pmo |-> 0, prx |-> 0, pln |-> 0]
 
 (* pins of the master at position p of a transfer *)
 ClkAt(c, L, p) == IF p < c.h \/ p >= EndP(c, L) THEN 0 ELSE B(((p - c.h) \div c.h) % 2 = 0)
@@ -53,27 +59,32 @@ Inputs(c) ==
   IF t = <<>>
   THEN { <<0, 1, 0, 0, 0>> } \cup
        (IF m.idle >= c.gap /\ m.post = <<>>
-        THEN { <<0, 0, Bit(DecWord(c, g), c.dw - 1), w, g>> : g \in Codes(c), w \in SeqSet(c.txws) } ELSE {})
+        THEN { <<0, 0, Bit(DecWord(c, g), c.dw - 1), w, g>> : g \in Codes(c), w \in SeqSet(c.txws) } \cup
+             (IF Flag(c, "other") = 1
+              THEN { <<0, 1, Bit(DecWord(c, g), c.dw - 1), w, g + NC(c)>> : g \in Codes(c), w \in SeqSet(c.txws) } ELSE {})
+        ELSE {})
   ELSE IF t.p + 1 < EndP(c, t.L)
-       THEN { <<ClkAt(c, t.L, t.p + 1), 0, MosiAt(c, t.L, t.X, t.p + 1), t.tx, 0>> }
+       THEN { <<ClkAt(c, t.L, t.p + 1), B(~t.own), MosiAt(c, t.L, t.X, t.p + 1), t.tx, 0>> }
        ELSE { <<0, 1, 0, 0, 0>> }
 
 AllOk == [okstart |-> TRUE, okirq |-> TRUE, oklen |-> TRUE, okrx |-> TRUE, okmiso |-> TRUE, okstable |-> TRUE,
-          okdone |-> TRUE, fin |-> TRUE]
+          okdone |-> TRUE, okheld |-> TRUE, fin |-> TRUE]
 CInit(c) == m = Init0 /\ obs = AllOk
 Consistent(c, iv, o) == TRUE
 
 CStep(c, iv, o) ==
   LET start == o[1]  length == o[2]  done == o[3]  irq == o[4]  rxw == o[5]  misop == o[6]
       t  == m.t
-      nt == IF iv[5] > 0 THEN [L |-> DecLen(c, iv[5]), X |-> DecWord(c, iv[5]), tx |-> iv[4], p |-> 0, started |-> FALSE]
+      nt == IF iv[5] > 0 THEN [L |-> DecLen(c, iv[5]), X |-> DecWord(c, iv[5]), tx |-> iv[4], p |-> 0, started |-> FALSE,
+                               own |-> Own(c, iv[5])]
             ELSE IF t = <<>> THEN <<>>
             ELSE IF t.p + 1 < EndP(c, t.L) THEN [t EXCEPT !.p = t.p + 1] ELSE <<>>
-      ended == t # <<>> /\ nt = <<>>                    \* cs_n rises in this cycle
+      ended == t # <<>> /\ nt = <<>> /\ t.own          \* cs_n rises in this cycle
+      mine  == nt # <<>> /\ nt.own                     \* this slave is selected
       post0 == IF ended THEN [L |-> t.L, X |-> t.X, q |-> 0] ELSE m.post
       \* one start pulse per transfer, soon after cs_n fell and before the first clock edge
-      okstart == /\ (start = 1 => (nt # <<>> /\ ~nt.started /\ nt.p <= LAT /\ nt.p < R(c, 1)))
-                 /\ (nt # <<>> /\ nt.p = Min(LAT, R(c, 1) - 1) => (nt.started \/ start = 1))
+      okstart == /\ (start = 1 => (mine /\ ~nt.started /\ nt.p <= LAT /\ nt.p < R(c, 1)))
+                 /\ (mine /\ nt.p = Min(LAT, R(c, 1) - 1) => (nt.started \/ start = 1))
       \* one irq pulse per transfer, soon after cs_n rose
       okirq   == /\ (irq = 1 => post0 # <<>>)
                  /\ (post0 # <<>> /\ post0.q = LAT => irq = 1)
@@ -84,22 +95,27 @@ CStep(c, iv, o) ==
       okrx  == (irq = 1 /\ post0 # <<>>) => rxw % (2^n) = sent % (2^n)
       \* the word to send appears MSB first; bit k is on the pin around the k-th rising edge
       okmiso == \A k \in 1..c.dw :
-                  (nt # <<>> /\ k <= nt.L /\ (nt.p = R(c, k) - 1 \/ nt.p = R(c, k))) => misop = Bit(nt.tx, c.dw - k)
+                  (mine /\ k <= nt.L /\ (nt.p = R(c, k) - 1 \/ nt.p = R(c, k))) => misop = Bit(nt.tx, c.dw - k)
       \* and changes only while the clock pin is low (generated on the falling edge)
       okstable == (misop # m.pmo) => iv[1] = 0
       \* done is low exactly from the start pulse to the irq pulse
       okdone == done = B(~(start = 1 \/ m.busy))
+      \* what the core reported stays: from the irq pulse to the next start pulse the received word and the
+      \* length do not change (software reads them after the interrupt) - whatever the deselected pins do
+      okheld == ~m.busy => (rxw = m.prx /\ length = m.pln)
   IN
   /\ m' = [t    |-> IF nt # <<>> /\ start = 1 THEN [nt EXCEPT !.started = TRUE] ELSE nt,
            post |-> IF post0 = <<>> \/ irq = 1 \/ post0.q >= LAT THEN <<>> ELSE [post0 EXCEPT !.q = post0.q + 1],
            idle |-> IF iv[2] = 1 THEN Min(m.idle + 1, c.gap) ELSE 0,
            busy |-> IF irq = 1 THEN FALSE ELSE (m.busy \/ start = 1),
-           pmo  |-> misop]
+           pmo  |-> misop, prx |-> rxw, pln |-> length]
   /\ obs' = [okstart |-> okstart, okirq |-> okirq, oklen |-> oklen, okrx |-> okrx, okmiso |-> okmiso, okstable |-> okstable,
-             okdone |-> okdone, fin |-> (nt = <<>> /\ ~(m.busy /\ irq = 0))]
+             okdone |-> okdone, okheld |-> okheld, fin |-> ((nt = <<>> \/ ~nt.own) /\ ~(m.busy /\ irq = 0))]
   /\ WitIf(irq = 1 /\ post0 # <<>> /\ post0.L > 1, c, 0, "transfer reported")
   /\ WitIf(iv[5] > 0 /\ m.idle = c.gap, c, 1, "transfer after the minimum gap")
-  /\ WitIf(nt # <<>> /\ nt.L = c.dw /\ nt.p = R(c, c.dw) /\ nt.tx # 0 /\ nt.tx # 2^c.dw - 1, c, 2, "full word sent")
+  /\ WitIf(mine /\ nt.L = c.dw /\ nt.p = R(c, c.dw) /\ nt.tx # 0 /\ nt.tx # 2^c.dw - 1, c, 2, "full word sent")
+  /\ WitIf(nt # <<>> /\ ~nt.own /\ iv[1] = 1 /\ ~m.busy /\ rxw # 0 /\ rxw # 2^c.dw - 1, c, 3,
+           "clock pulses for another slave after a received word")
 
 StartOnce      == obs.okstart
 IrqOnce        == obs.okirq
@@ -108,4 +124,5 @@ MosiCaptured   == obs.okrx
 MisoMsbFirst   == obs.okmiso
 MisoStableWhileHigh == obs.okstable
 DoneMeansIdle  == obs.okdone
+ResultHeld     == obs.okheld
 =============================================================================
